@@ -381,6 +381,10 @@ fn run_workload(ctx: &mut Ctx, wid: usize, model_ops: &str, stmts: &[String], ou
                 if pts[n].name == "persist.tmp.rename" {
                     before = Some(pts[n].snap.get("manifest.json").and_then(|x| x.clone()).unwrap_or_default());
                 }
+                // the directory was fsynced after the rename: the rename can not be lost any more
+                if pts[n].name == "persist.tmp.dirsynced" {
+                    before = None;
+                }
             }
             if let Some(old) = before {
                 let mut img = snap_dir(&dir);
